@@ -39,18 +39,19 @@ PROPS = {
             f"{MAT}._calc_target_power",
             f"{MAT}.calculate_target_power",
             f"{MAT}.get_target_power",
+            f"{MAT}.drop_old_proposals",
         ],
         lemmas=["proposal_eq_is_key_equality", "proposal_lt_strict_total_order_on_keys"],
-        bounded=[dict(kind="contract_search", name="drop_old_proposals (expiry)", target=f"{MAT}.drop_old_proposals",
-                      contract_module="contracts.pm_matryoshka", budget_s=8, thorough_budget_s=60)],
+        bounded=[],
         level="proof",
         explanation="Envelope: contracts on the three _bounds functions and an inductive invariant for the priority sweep "
                     "(any number of proposals). History-freedom: _calc_target_power is proved pure (frame) and "
                     "calculate_target_power is proved to keep bucket' = (bucket minus same-key) + proposal (sets of "
                     "proposals modelled as finite maps keyed by (priority, source_id), justified by a lemma about the "
                     "real __eq__), to store exactly the callee's value, and to leave other groups alone; __lt__ is proved "
-                    "a strict total order on keys, so the descending order swept is unique. Expiry "
-                    "(drop_old_proposals) is only a bounded stand-in.",
+                    "a strict total order on keys, and the sweep is proved to visit the proposals in exactly that strict order. Expiry: "
+                    "drop_old_proposals is proved (two loop invariants with a ghost index list) to remove exactly the proposals "
+                    "older than the maximum age and to leave every other proposal, the bucket and the stored target alone.",
         assumptions=[REALS, EXTRACTION,
                      "assume: a strictly ordered arrangement of a finite set under a strict total order is unique "
                      "(mathematical fact, not re-proved); with the proved purity of _calc_target_power this gives "
@@ -81,14 +82,13 @@ PROPS = {
         contracts=[
             f"{MAT}.calculate_target_power#c11",
             f"{MAT}.get_target_power",
+            # the expiry event: the class invariant 'a stored target has a bucket' must survive drop_old_proposals
+            f"{MAT}.drop_old_proposals",
             f"{PM}._power_managing_actor:PowerManagingActor._calculate_shifted_bounds",
             f"{PM}._power_managing_actor:PowerManagingActor._calculate_target_power",
         ],
         lemmas=[],
-        # the expiry event: the class invariant 'a stored target has a bucket' must survive drop_old_proposals
-        bounded=[dict(kind="contract_search", name="drop_old_proposals (expiry keeps buckets and stored targets)",
-                      target=f"{MAT}.drop_old_proposals", contract_module="contracts.pm_matryoshka", budget_s=8,
-                      thorough_budget_s=60)],
+        bounded=[],
         level="proof",
         explanation="_calculate_target_power is verified against Matryoshka.calculate_target_power's contract (None = stored "
                     "target unchanged; returned value = stored target; stored target inside the bounds it was computed "
@@ -96,8 +96,8 @@ PROPS = {
                     "the system inclusion bounds, in all three branches.",
         assumptions=[REALS, EXTRACTION,
                      "history quantifier: carried by the class invariant 'a stored target has a bucket' (required, and "
-                     "proved preserved) - every event handler funnels into _calculate_target_power; the expiry timer's "
-                     "drop_old_proposals preserves it only by a BOUNDED native search of its contract (labelled, not proved)"],
+                     "proved preserved) - every event handler funnels into _calculate_target_power, and the expiry timer's "
+                     "drop_old_proposals is proved to keep buckets and stored targets"],
     ),
     "C13": dict(
         modules=["fe_steps"],
